@@ -8,18 +8,26 @@ Modelled: `CSRFWithConfig` defaults (TokenLength 0 ↦ 32, TokenLookup "" ↦
 "header:X-CSRF-Token"), `CreateExtractors` (split on `,` and `:`; a source without `:` is an
 error ↦ panic at construction; unknown sources are silently ignored), `valuesFromHeader`
 (canonical key, optional prefix cut with `EqualFold`, stop after the value with index ≥ 19),
-`valuesFromQuery`, `valuesFromForm` (first 20 values), `valuesFromParam` (the harness route
-has no path parameters: always "missing"), `valuesFromCookie`, the safe-method switch
+`valuesFromQuery`, `valuesFromForm` (first 20 values), `valuesFromParam` (names and values of the
+matched route's path parameters are passed in), `valuesFromCookie`, the safe-method switch
 (exact, case-sensitive strings), the comparison loop with `lastTokenErr`/`lastExtractorErr`,
 the error mapping (403 invalid / 400 missing), the publication (Set-Cookie + context), and
 `randomString` over an explicit byte stream (after the F15 repair: buffer size computed in
 `int`).  `ErrorHandler` is nil or one of two custom handlers (write own response and return nil / return
-own error); `Skipper` is the default (never skips).
+own error).
+
+Round 4 additions: the convenience constructor `CSRF()` (`defaultRaw`), a configured `Skipper`
+(`handle`), the Set-Cookie attributes the config controls (`cookieAttrs`: Path, Domain, Expires =
+now + MaxAge, Secure — forced by SameSite=None —, HttpOnly, SameSite), the `param:` source with
+the route's path parameters, `CreateExtractors("")`, `randomString` with the rest of the stream
+(`randomStringR`) and a *stack* of middlewares that draw from one random source in turn
+(`serveStack`: CSRF instances and `RequestID()`, whose default generator is `randomString(32)`).
 
 Standard-library behaviour implemented here and validated by the correspondence run:
 `textproto.CanonicalMIMEHeaderKey`, `strings.Split`, `strings.EqualFold` for an ASCII prefix,
-`http.Request.ParseForm`'s rule (body parsed for POST/PUT/PATCH only; `Form` = body values
-followed by query values), `subtle.ConstantTimeCompare` (= equality).  Passed in from the
+`http.Request.ParseForm`'s rule (urlencoded body parsed for POST/PUT/PATCH only; `Form` = body
+values followed by query values) and `ParseMultipartForm`'s (multipart fields for every method,
+after the query values), `subtle.ConstantTimeCompare` (= equality).  Passed in from the
 harness: the request cookies as parsed by `http.Request.Cookies()`, the decoded query and
 body pairs, the header map, and the bytes the random source will deliver.
 -/
@@ -126,8 +134,9 @@ def parseSources : List Str → Option (List Extractor)
       | none => none
       | some es => some (match o with | some e => e :: es | none => es)
 
-/-- `CreateExtractors(lookups)` for a non-empty lookup string -/
-def createExtractors (lookups : Str) : Option (List Extractor) := parseSources (splitOn 44 lookups)
+/-- `CreateExtractors(lookups)`; the empty string yields no extractor and no error -/
+def createExtractors (lookups : Str) : Option (List Extractor) :=
+  if lookups = [] then some [] else parseSources (splitOn 44 lookups)
 
 structure Req where
   method : Str
@@ -136,6 +145,8 @@ structure Req where
   query : List (Str × Str)     -- decoded query pairs
   form : List (Str × Str)      -- decoded pairs of the urlencoded body
   rnd : List Nat               -- what the random source delivers during this request
+  params : List (Str × Str) := []  -- `c.ParamNames()` / `c.ParamValues()` of the matched route, in order
+  multipart : Bool := false        -- the body (`form`) is multipart/form-data instead of urlencoded
 deriving Repr, Inhabited
 
 def valuesOf (k : Str) (l : List (Str × Str)) : List Str :=
@@ -156,9 +167,12 @@ def headerScan (pfx : Str) : Nat → List Str → List Str
       v.drop pfx.length :: (if i ≥ 19 then [] else headerScan pfx (i + 1) vs)
     else headerScan pfx (i + 1) vs
 
-/-- `Request.Form[name]` after `ParseForm` -/
+/-- `Request.Form[name]` after `ParseMultipartForm`: a urlencoded body is parsed for
+    POST/PUT/PATCH only and its values come before the query values; the fields of a
+    multipart/form-data body are appended after the query values **whatever the method** -/
 def formValues (r : Req) (name : Str) : List Str :=
-  (if r.method = lit "POST" ∨ r.method = lit "PUT" ∨ r.method = lit "PATCH"
+  if r.multipart then valuesOf name r.query ++ valuesOf name r.form
+  else (if r.method = lit "POST" ∨ r.method = lit "PUT" ∨ r.method = lit "PATCH"
     then valuesOf name r.form else []) ++ valuesOf name r.query
 
 /-- the loop of `valuesFromCookie`; `i` is the index in `c.Cookies()` -/
@@ -181,7 +195,10 @@ def extract (r : Req) : Extractor → Option (List Str)
   | .form name =>
     let vals := formValues r name
     if vals.isEmpty then none else some (vals.take 20)
-  | .param _ => none
+  | .param name =>
+    -- same loop shape as the cookie extractor: `i` is the index among ALL path parameters
+    let res := cookieScan name 0 r.params
+    if res.isEmpty then none else some res
   | .cookie name =>
     let res := cookieScan name 0 r.cookies
     if res.isEmpty then none else some res
@@ -197,7 +214,19 @@ structure Cfg where
       own 409 error.  In every case the middleware returns what the handler returns and `next`
       is not called. -/
   errorHandler : Nat := 0
-deriving Repr
+  /-- the cookie options as `CSRFWithConfig` holds them after its defaults (MaxAge 0 ↦ 86400,
+      SameSite=None ⇒ Secure) -/
+  cookiePath : Str := []
+  cookieDomain : Str := []
+  cookieMaxAge : Nat := 86400
+  cookieSecure : Bool := false
+  cookieHTTPOnly : Bool := false
+  /-- `http.SameSite`: 0 = zero value, 1 = SameSiteDefaultMode, 2 = Lax, 3 = Strict, 4 = None -/
+  cookieSameSite : Nat := 0
+  /-- a `Skipper` is configured that skips exactly the requests carrying a non-empty first
+      `X-Skip` header value (the harness's Skipper); `false` = `DefaultSkipper` (never skips) -/
+  skipper : Bool := false
+deriving DecidableEq, Repr
 
 /-- status of the response to a request rejected with `s`, through the configured ErrorHandler -/
 def handlerStatus (c : Cfg) (s : Nat) : Nat :=
@@ -259,14 +288,144 @@ def serve (c : Cfg) (r : Req) : Result :=
       else if st.lastExtractorErr then .rejected (handlerStatus c 400)
       else .passed token token
 
+/-! ## publication: the attributes of the Set-Cookie -/
+
+/-- what `c.SetCookie(cookie)` publishes besides name and value; `maxAge` stands for
+    `Expires = time.Now() + MaxAge s`; `sameSite` 0 = no SameSite attribute -/
+structure CookieAttrs where
+  path : Str
+  domain : Str
+  maxAge : Nat
+  secure : Bool
+  httpOnly : Bool
+  sameSite : Nat
+deriving DecidableEq, Repr
+
+/-- lines 187-203 of csrf.go: Path/Domain only when configured (the zero value of
+    `http.Cookie` is the empty string anyway), SameSite only when it is not
+    `SameSiteDefaultMode` (1) — and the zero value 0 writes no attribute either -/
+def cookieAttrs (c : Cfg) : CookieAttrs :=
+  { path := c.cookiePath
+    domain := c.cookieDomain
+    maxAge := c.cookieMaxAge
+    secure := c.cookieSecure
+    httpOnly := c.cookieHTTPOnly
+    sameSite := if c.cookieSameSite = 1 then 0 else c.cookieSameSite }
+
+/-! ## Skipper -/
+
+/-- the harness's Skipper: `c.Request().Header.Get("X-Skip") != ""` -/
+def skipReq (r : Req) : Bool :=
+  match valuesOf (lit "X-Skip") r.headers with
+  | v :: _ => !v.isEmpty
+  | [] => false
+
+inductive Outcome where
+  | skipped                 -- `config.Skipper(c)`: `next(c)` at once — no cookie, no context value
+  | served (res : Result)
+deriving DecidableEq, Repr
+
+/-- the middleware closure, Skipper included -/
+def handle (c : Cfg) (r : Req) : Outcome :=
+  if c.skipper && skipReq r then .skipped else .served (serve c r)
+
+/-! ## randomString with the rest of the stream; several consumers of one random source -/
+
+/-- `fillLoop` that also returns what is left of the stream (whole chunks are consumed) -/
+def fillLoopR (chunk : Nat) : Nat → Nat → List Nat → Option (List Nat × List Nat)
+  | 0, _, _ => none
+  | fuel + 1, need, stream =>
+    if stream.length < chunk then none
+    else
+      let sc := scanChunk need (stream.take chunk)
+      if sc.2 = 0 then some (sc.1, stream.drop chunk)
+      else match fillLoopR chunk fuel sc.2 (stream.drop chunk) with
+        | some (rest, left) => some (sc.1 ++ rest, left)
+        | none => none
+
+/-- `randomString(length)` together with the bytes the next reader of the source will see -/
+def randomStringR (length : Nat) (stream : List Nat) : Option (Str × List Nat) :=
+  fillLoopR (length + length / 4) (stream.length + 1) length stream
+
+/-- a middleware in front of the handler that may draw from the random source -/
+inductive Mw where
+  | csrf (c : Cfg)
+  | requestID            -- `middleware.RequestID()`: X-Request-Id of the request, else `randomString(32)`
+deriving Repr
+
+/-- what one middleware of the stack published for the handler / the response -/
+inductive Pub where
+  | csrf (setCookie ctx : Str) (a : CookieAttrs)
+  | skipped
+  | rid (id : Str)
+deriving DecidableEq, Repr
+
+inductive StackOut where
+  | panic
+  | rejected (status : Nat)
+  | passed (pubs : List Pub)      -- the handler ran
+deriving DecidableEq, Repr
+
+def StackOut.push (p : Pub) : StackOut → StackOut
+  | .passed ps => .passed (p :: ps)
+  | o => o
+
+/-- the stream after the CSRF instance `c` handled `r` (it draws only for a request without its cookie) -/
+def restAfter (c : Cfg) (r : Req) (s : List Nat) : List Nat :=
+  if c.skipper && skipReq r then s
+  else match findCookie c.cookieName r.cookies with
+    | some _ => s
+    | none => match randomStringR c.tokenLength s with
+      | some (_, rest) => rest
+      | none => s
+
+/-- the request id `RequestID()` uses: the first X-Request-Id value of the request if not empty -/
+def requestIDOf (r : Req) : Option Str :=
+  match valuesOf (lit "X-Request-Id") r.headers with
+  | v :: _ => if v.isEmpty then none else some v
+  | [] => none
+
+/-- the middlewares in registration order (outermost first) in front of a handler, all drawing
+    from the stream `s` (`r.rnd` is not used: every instance sees the stream left by its
+    predecessors) -/
+def serveStack : List Mw → Req → List Nat → StackOut
+  | [], _, _ => .passed []
+  | .requestID :: rest, r, s =>
+    match requestIDOf r with
+    | some v => (serveStack rest r s).push (.rid v)
+    | none =>
+      match randomStringR 32 s with
+      | none => .panic
+      | some (id, s') => (serveStack rest r s').push (.rid id)
+  | .csrf c :: rest, r, s =>
+    match handle c { r with rnd := s } with
+    | .skipped => (serveStack rest r s).push .skipped
+    | .served .panic => .panic
+    | .served (.rejected st) => .rejected st
+    | .served (.passed sc ctx) => (serveStack rest r (restAfter c r s)).push (.csrf sc ctx (cookieAttrs c))
+
 /-! ## wire -/
 open Wire
 
+/-- `CSRFConfig` as handed to the constructor -/
 structure RawCfg where
   tokenLength : Nat
   lookup : Str
   cookieName : Str
   errorHandler : Nat
+  cookiePath : Str := []
+  cookieDomain : Str := []
+  cookieMaxAge : Nat := 0
+  cookieSecure : Bool := false
+  cookieHTTPOnly : Bool := false
+  cookieSameSite : Nat := 0
+  skipper : Bool := false
+deriving Repr
+
+/-- `DefaultCSRFConfig`: what `CSRF()` hands to `CSRFWithConfig` -/
+def defaultRaw : RawCfg :=
+  { tokenLength := 32, lookup := lit "header:X-CSRF-Token", cookieName := lit "_csrf", errorHandler := 0,
+    cookieMaxAge := 86400, cookieSameSite := 1 }
 
 /-- `CSRFWithConfig` defaults; `none` = `CreateExtractors` failed (constructor panics) -/
 def mkCfg (rc : RawCfg) : Option Cfg :=
@@ -277,7 +436,14 @@ def mkCfg (rc : RawCfg) : Option Cfg :=
     some { tokenLength := if rc.tokenLength = 0 then 32 else rc.tokenLength
            extractors := es
            cookieName := if rc.cookieName = [] then lit "_csrf" else rc.cookieName
-           errorHandler := rc.errorHandler }
+           errorHandler := rc.errorHandler
+           cookiePath := rc.cookiePath
+           cookieDomain := rc.cookieDomain
+           cookieMaxAge := if rc.cookieMaxAge = 0 then 86400 else rc.cookieMaxAge
+           cookieSecure := rc.cookieSecure || rc.cookieSameSite == 4
+           cookieHTTPOnly := rc.cookieHTTPOnly
+           cookieSameSite := rc.cookieSameSite
+           skipper := rc.skipper }
 
 def pPair : P (Str × Str) := do
   let k ← bytes
@@ -290,25 +456,65 @@ def pReq : P Req := do
   let hs ← list pPair
   let q ← list pPair
   let f ← list pPair
+  let ps ← list pPair
+  let mp ← bool
   let rnd ← bytes
-  pure ⟨m, cs, hs, q, f, rnd⟩
+  pure { method := m, cookies := cs, headers := hs, query := q, form := f, rnd := rnd, params := ps, multipart := mp }
 
-def encResult : Result → List String
+/-- one middleware of the stack: `1` = RequestID(); `2` = CSRF() (no config); `0 cfg…` = CSRFWithConfig -/
+def pMw : P (Option RawCfg) := do
+  let k ← nat
+  match k with
+  | 1 => pure none
+  | 2 => pure (some defaultRaw)
+  | 0 => do
+    let n ← nat; let l ← bytes; let cn ← bytes; let eh ← nat
+    let path ← bytes; let dom ← bytes; let age ← nat
+    let sec ← bool; let ho ← bool; let ss ← nat; let sk ← bool
+    pure (some { tokenLength := n, lookup := l, cookieName := cn, errorHandler := eh, cookiePath := path,
+                 cookieDomain := dom, cookieMaxAge := age, cookieSecure := sec, cookieHTTPOnly := ho,
+                 cookieSameSite := ss, skipper := sk })
+  | _ => failure
+
+/-- construct the stack; `none` = some constructor panics -/
+def mkStack : List (Option RawCfg) → Option (List Mw)
+  | [] => some []
+  | none :: rest => (mkStack rest).map (Mw.requestID :: ·)
+  | some rc :: rest =>
+    match mkCfg rc, mkStack rest with
+    | some c, some ms => some (.csrf c :: ms)
+    | _, _ => none
+
+def encPub : Pub → List String
+  | .skipped => ["k"]
+  | .rid id => ["r", encBytes id]
+  | .csrf sc ctx a => ["c", encBytes sc, encBytes ctx, encBytes a.path, encBytes a.domain, toString a.maxAge,
+      encBool a.secure, encBool a.httpOnly, toString a.sameSite]
+
+def encOut : StackOut → List String
   | .panic => ["2"]
   | .rejected s => ["0", toString s]
-  | .passed sc ctx => ["1", encBytes sc, encBytes ctx]
+  | .passed ps => "1" :: encList encPub ps
 
-/-- line: `tokenLength lookup cookieName errorHandler n (method cookies headers query form rnd)*`
-    → `cpanic` | `n (2 | 0 status | 1 setCookie ctx)*` -/
+/-- what the public `CreateExtractors(lookup)` returns for the configured string as it is:
+    `x<number of extractors>` or `xerr` -/
+def encExtractors (lookup : Str) : String :=
+  match createExtractors lookup with
+  | none => "xerr"
+  | some es => "x" ++ toString es.length
+
+/-- line: `rawLookup nMw mw* n (method cookies headers query form params multipart rnd)*`
+    → `x… cpanic` | `x… n (2 | 0 status | 1 k pub*)*` -/
 def runLine (line : String) : String :=
   match parseLine (do
-      let n ← nat; let l ← bytes; let cn ← bytes; let eh ← nat
+      let raw ← bytes
+      let ms ← list pMw
       let rs ← list pReq
-      pure (RawCfg.mk n l cn eh, rs)) line with
+      pure (raw, ms, rs)) line with
   | none => "bad-op"
-  | some (rc, rs) =>
-    match mkCfg rc with
-    | none => "cpanic"
-    | some c => render (encList (fun r => encResult (serve c r)) rs)
+  | some (raw, ms, rs) =>
+    match mkStack ms with
+    | none => encExtractors raw ++ " cpanic"
+    | some st => encExtractors raw ++ " " ++ render (encList (fun r => encOut (serveStack st r r.rnd)) rs)
 
 end C12
